@@ -17,6 +17,9 @@ from vt import c09lib   # noqa: F401  imported here so that forked workers inher
 from vt.c09lib import W9, judge, flags_key
 from vt.core import Part, HarnessError
 
+import os
+KS = ['ks1', 'ks2']
+
 import cassandra.connection as _conn
 import cassandra.pool as _pool
 import cassandra.cluster as _cluster
@@ -89,8 +92,17 @@ def e_configs(ctx):
         ('v4-retry', dict(base, max_in_flight=3, initial_ids=1, n_req=4, max_faults=0, retry_kind=True), 7, 9),
         # protocol v2: HostConnectionPool with two connections of ids 0..1, one request in flight each
         ('v2-pool', dict(base, protocol_version=2, max_in_flight=1, n_req=5, max_faults=0), 8, 10),
+        # keyspace switches multiplexed with the requests (ids 0..2): USE ks1 / USE ks2 in any order and repetition (first switch,
+        # repeated switch to the keyspace the connection is on, switch back)
+        ('v4-use', dict(base, max_in_flight=3, initial_ids=1, n_req=2, n_use=3, keyspaces=KS, max_faults=0), 8, 10),
+        # the session was connected with ks1 (the pool opened its connection with set_keyspace_blocking); one connection failure:
+        # the replacement is opened with the pool's current keyspace
+        ('v4-use-connected-fault', dict(base, max_in_flight=3, initial_ids=1, n_req=2, n_use=2, keyspaces=KS, keyspace='ks1', max_faults=1), 7, 9),
+        # legacy pool: every connection of the pool is switched
+        ('v2-use', dict(base, protocol_version=2, max_in_flight=1, n_req=2, n_use=2, keyspaces=KS, max_faults=0), 7, 9),
     ]
-    return [(n, p, dt if ctx.thorough else dq) for n, p, dq, dt in cfgs]
+    only = os.environ.get('C09_ONLY')
+    return [(n, p, dt if ctx.thorough else dq) for n, p, dq, dt in cfgs if not only or n in only.split(',')]
 
 
 def run_e(ctx):
@@ -213,7 +225,9 @@ def s_configs(ctx):
         # ids 0..3: one outstanding, one orphaned, highest_request_id grows under the two clients
         ('4ids-pre2-1+1', dict(base, max_in_flight=4, setup=[('send',), ('send',), ('timeout', 1)], clients=[1, 1]), None, 1),
     ]
-    return [(n, p, bt if ctx.thorough else bq) for n, p, bq, bt in cfgs if (bt if ctx.thorough else bq) is not None]
+    only = os.environ.get('C09_ONLY')
+    return [(n, p, bt if ctx.thorough else bq) for n, p, bq, bt in cfgs if (bt if ctx.thorough else bq) is not None
+            and (not only or n in only.split(','))]
 
 
 def run_s(ctx):
